@@ -412,6 +412,9 @@ def ossl_units(prefix):
     ]
 P["C01"]["units"] += ossl_units("C01")[:2]
 P["C05"] = {"property": "C05", "level": "proof", "units": ossl_units("C05")[2:]}
+_u = dict(ossl_units("C05")[1]); _u["name"] = "C05.openssl_verify_sha_pem.complete"; _u["enforce"] = "openssl_verify_sha_pem/contract_C05_openssl_verify_sha_pem"
+_u["expect"] = ["contract_C05_openssl_verify_sha_pem\\.postcondition\\.8"]; _u["defines"] = _u["defines"] + ["VERIF_ALLOC_RECORD_FAIL"]
+P["C05"]["units"].append(_u)
 
 # ============================ parsing units =================================
 VERIFY_JSON_STUBS = LIBC + ["stubs/time.c", "stubs/jansson.c", "stubs/alloc.c"]
